@@ -23,7 +23,7 @@ from .common import Report, snapshot, same_cell, _cell
 
 PID = 'C17'
 LABELS = ['fb', 'fd', 'fa', 'fc']          # deliberately not in sorted order
-EXTRA = ['fe', 'ff']                       # appended (never rotated) for the 5- and 6-frame worlds
+EXTRA = ['fe', 'f.f']                      # appended (never rotated) for the 5- and 6-frame worlds
 
 
 # ---------------------------------------------------------------------------------------------
@@ -39,12 +39,12 @@ def make_frames(n, world=0):
     }
     # fe: auto-integer index, written WITHOUT its index (per-label exporter options differ from the default config)
     fs['fe'] = lambda: sf.Frame.from_dict(dict(g=[7, 8, 9], h=['s', 't', 'u']), name='fe')
-    fs['ff'] = lambda: sf.Frame.from_dict(dict(a=[2.5, 3.5]), index=('m', 'n'), name='ff')
+    fs['f.f'] = lambda: sf.Frame.from_dict(dict(a=[2.5, 3.5]), index=('m', 'n'), name='f.f')     # a label holding a dot (zip member names carry an extension)
     order = LABELS[world:] + LABELS[:world] + EXTRA
     return [fs[l]() for l in order[:n]]
 
 
-DEPTH = dict(fb=1, fd=1, fa=2, fc=1, fe=0, ff=1)
+DEPTH = {'fb': 1, 'fd': 1, 'fa': 2, 'fc': 1, 'fe': 0, 'f.f': 1}
 EXPORT = dict(fe=dict(include_index=False))
 
 
